@@ -809,6 +809,7 @@ func mutate(r *rng, s []byte, alpha []byte) []byte {
 // ---------------------------------------------------------------------------
 
 func propC08(r *Run) {
+	defer c08RegionOfLocation(r)
 	thorough := r.tier == "thorough"
 	r.exhaustive = true
 	c08Strand(r)
